@@ -1,6 +1,7 @@
 package main
 
 import (
+	"strconv"
 	"fmt"
 	"go/types"
 	"strings"
@@ -214,7 +215,9 @@ func (e *Engine) verifAPI(s *State, f *Frame, call *ssa.Call, fn *ssa.Function, 
 		for i, v := range vs {
 			ts[i] = v.(*Term)
 		}
-		set(UF("h."+strArg(args[0]), BV(64), ts...))
+		r := UF("h."+strArg(args[0]), BV(64), ts...)
+		e.noteUF(strArg(args[0]), ts, r)
+		set(r)
 		return true
 	case short == "verifUFBool":
 		vs := e.variadic(s, args[1])
@@ -222,7 +225,9 @@ func (e *Engine) verifAPI(s *State, f *Frame, call *ssa.Call, fn *ssa.Function, 
 		for i, v := range vs {
 			ts[i] = v.(*Term)
 		}
-		set(UF("h."+strArg(args[0]), BoolSort, ts...))
+		r := UF("h."+strArg(args[0]), BoolSort, ts...)
+		e.noteUF(strArg(args[0]), ts, r)
+		set(r)
 		return true
 	case short == "verifHashBytes":
 		// verifHashBytes(name string, b []byte) uint64: abstract digest of a byte string
@@ -454,4 +459,85 @@ func (e *Engine) decodeValue(cells []*Term, t types.Type, big bool) (Value, []*T
 	}
 	unsupp("binary.Read of %v", t)
 	return nil, nil
+}
+
+// ufApp is one application of a harness-level uninterpreted function (verifUF64 / verifUFBool).
+// Models of findings and witnesses carry the value of every application, keyed the way the native
+// runtime looks them up, so that a replay uses the function the solver chose.
+type ufApp struct {
+	name string
+	args []*Term
+	res  *Term
+}
+
+func (e *Engine) noteUF(name string, args []*Term, res *Term) {
+	if e.ufSeen == nil {
+		e.ufSeen = map[int]bool{}
+	}
+	if e.ufSeen[res.ID] {
+		return
+	}
+	e.ufSeen[res.ID] = true
+	e.ufApps = append(e.ufApps, ufApp{name, args, res})
+}
+
+// ufTable evaluates the recorded applications under the model m of path condition pc.
+func (e *Engine) ufTable(pc []*Term, m map[string]string) map[string]string {
+	if len(e.ufApps) == 0 {
+		return nil
+	}
+	pinned := append([]*Term(nil), pc...)
+	for _, v := range varOrder {
+		if lit, has := m[v.Name]; has && v.Sort.Kind != 2 {
+			if u, ok := litToUint(lit); ok {
+				if v.Sort.Kind == 0 {
+					pinned = append(pinned, Eq(v, Bool(u != 0)))
+				} else if v.Sort.Width <= 64 {
+					pinned = append(pinned, Eq(v, BVUint(u, v.Sort.Width)))
+				}
+			}
+		}
+	}
+	var evals []*Term
+	for _, a := range e.ufApps {
+		for _, t := range a.args {
+			if !t.IsConst() && t.Op != "var" {
+				evals = append(evals, t)
+			}
+		}
+		evals = append(evals, a.res)
+	}
+	ev, ok := e.Solver.Model(pinned, nil, nil, nil, evals...)
+	if !ok {
+		return nil
+	}
+	val := func(t *Term) (uint64, bool) {
+		if t.IsConst() {
+			return t.Const.Uint64(), true
+		}
+		if t.Op == "var" {
+			return litToUint(m[t.Name])
+		}
+		return litToUint(ev[fmt.Sprintf("eval:%d", t.ID)])
+	}
+	out := map[string]string{}
+	for _, a := range e.ufApps {
+		key := a.name
+		good := true
+		for _, t := range a.args {
+			u, ok := val(t)
+			if !ok {
+				good = false
+				break
+			}
+			key += "," + strconv.FormatUint(u, 10)
+		}
+		if !good {
+			continue
+		}
+		if u, ok := val(a.res); ok {
+			out[key] = strconv.FormatUint(u, 10)
+		}
+	}
+	return out
 }
